@@ -136,6 +136,9 @@ class FnView:
         self.callees = []      # (name, qualified name, node) of resolved calls (typed AST only)
         self.gtypes = {}       # name of a referenced global -> its declared type
         self.asserts = []      # predicates of assert() statements (visible because the front end parses with -UNDEBUG)
+        self.outer = None      # FnView of the enclosing function when this is the call operator of a lambda
+        self.lambdas = set()   # function ids of the lambdas whose bodies were taken into terms of this function
+        self.byref = {}        # name of a local -> names of the callees it is handed to where the parameter may be a non-const reference
         self.decl = tu.node(f['id'])
         self._body = None
         self._mut = None
@@ -146,6 +149,7 @@ class FnView:
             return self._mut
         tu = self.tu
         mut = set()
+        self._byref_ids = {}
         body = tu.body(self.f)
 
         def root_var(n):
@@ -163,6 +167,8 @@ class FnView:
                 n = self.strip(ks[0])
             if n is not None and n.get('kind') == 'DeclRefExpr':
                 return n.get('referencedDecl', {}).get('id')
+            if n is not None and n.get('kind') == 'CXXThisExpr':
+                return 'this'
             return None
 
         if body is not None:
@@ -209,6 +215,9 @@ class FnView:
                         rv = root_var(a)
                         if rv is not None:
                             mut.add(('arg', rv))
+                            cn = self.strip(ks[0])
+                            cname = (cn.get('name') or cn.get('member') or cn.get('referencedDecl', {}).get('name')) if cn else None
+                            self._byref_ids.setdefault(rv, set()).add(cname or '?')
         mut.discard(None)
         # ('arg', id): only counts for locals that are not const-qualified
         constvars = set()
@@ -274,12 +283,21 @@ class FnView:
             if rk == 'ParmVarDecl':
                 if rid in self.pidx:
                     return ('p', self.pidx[rid])
+                o = self.outer
+                if o is not None and rid in o.pidx and rid not in o._mutated():
+                    return ('\x00op', o.pidx[rid])      # captured parameter of the enclosing function (never written there)
                 return ('?', 'foreign parameter ' + name)
             if rk == 'VarDecl':
                 if rid in self.locals:
                     return self.locals[rid]
                 if rid in self.localvars:
                     return ('v', name)
+                o = self.outer
+                if o is not None and rid in o.locals:
+                    # captured local of the enclosing function that is never written after its initialisation
+                    return map_terms(o.locals[rid], lambda x: ('\x00op', x[1]) if (x[0] == 'p' and len(x) == 2 and isinstance(x[1], int)) else x)
+                if o is not None and rid in o.localvars:
+                    return ('?', 'captured mutable local ' + name)
                 self.gtypes[name] = tclean((rd.get('type') or {}).get('qualType'))
                 return ('g', name)
             if rk == 'NonTypeTemplateParmDecl':
@@ -421,10 +439,16 @@ class FnView:
             g = tu.functions.get(tu.sd(n).get('op'))
             if g is not None and tu.body(g) is not None:
                 lv = FnView(tu, g)
+                lv.outer = self
                 lb = lv.body()
                 if len(lb) == 1 and lb[0][0] == 'ret' and lb[0][1] is not None and not unknowns(lb[0][1]):
                     self.callees.extend(lv.callees)
+                    self.lambdas.add(g['id'])
+                    self.lambdas |= lv.lambdas
+                    for nm_, ty_ in lv.gtypes.items():
+                        self.gtypes.setdefault(nm_, ty_)
                     body = map_terms(lb[0][1], lambda x: ('lp', x[1]) if (x[0] == 'p' and len(x) == 2 and isinstance(x[1], int)) else x)
+                    body = map_terms(body, lambda x: ('p', x[1]) if x[0] == '\x00op' else x)
                     return ('lambda', len(g['params']), body)
             return ('?', 'LambdaExpr')
         if k == 'CXXDefaultArgExpr':
@@ -436,6 +460,28 @@ class FnView:
         return ('?', k)
 
     # ---- statements
+    def _reads_written_state(self, init):
+        """the initialiser of a local reads an object (parameter, other local, *this) that the function writes somewhere: the local
+        then holds the value of that moment and must stay a state variable instead of being replaced by its initialiser"""
+        if init is None:
+            return False
+        mut = self._mutated()
+        constp = {p['id'] for p in self.f['params'] if (p.get('ct') or '').strip().startswith('const ')}
+        for x in self.tu.walk(init):
+            k = x.get('kind')
+            if k == 'DeclRefExpr':
+                rd = x.get('referencedDecl', {})
+                rid = rd.get('id')
+                if rid in constp or tclean_const((rd.get('type') or {}).get('qualType')):
+                    continue        # nothing is written through a const-qualified name
+                if rid in mut:
+                    return True
+                if rid in self.localvars:
+                    return True
+            elif k == 'CXXThisExpr' and 'this' in mut:
+                return True
+        return False
+
     def is_assert(self, n):
         tu = self.tu
         n = self.strip(n)
@@ -483,10 +529,12 @@ class FnView:
                             t = ('ctor', vt, (t,))
                         elif vt.endswith('*') and it in ('<dependent type>', '') and not (t[0] == 'ctor' and t[1] == vt):
                             t = ('ctor', vt, (t,))      # a pointer initialised from a dependent expression: a conversion
-                    if d['id'] not in self._mutated():
+                    if d['id'] not in self._mutated() and not self._reads_written_state(init[-1] if init else None):
                         self.locals[d['id']] = t
                     else:
                         self.localvars[d['id']] = d.get('name', '?')
+                        if d['id'] in self._byref_ids:
+                            self.byref[d.get('name', '?')] = set(self._byref_ids[d['id']])
                         out.append(('decl', d.get('name', '?'), t, tkey((d.get('type') or {}).get('qualType'))))
                     continue
                 out.append(('?', 'declaration ' + str(dk)))
@@ -1121,6 +1169,7 @@ class Inliner:
                         self.used.add(g['id'])
                         self.used_names.add(x[1])
                         self.v.callees.extend(hv.callees)
+                        self.v.lambdas |= hv.lambdas
                         return self.expr(beta_reduce(subst_params(body, x[2])), depth + 1)
             return x
         return map_terms(t, f)
@@ -1137,6 +1186,7 @@ class Inliner:
                         self.used.add(g['id'])
                         self.used_names.add(st[1][1])
                         self.v.callees.extend(hv.callees)
+                        self.v.lambdas |= hv.lambdas
                         out.extend(self.stmts([subst_params(x, st[1][3], this=('this',)) for x in hb], depth + 1))
                         continue
             if st[0] in ('ret', 'expr') and st[1] is not None and st[1][0] == 'call' and isinstance(st[1][1], str) and depth < 3:
@@ -1159,10 +1209,33 @@ class Inliner:
                         self.used.add(g['id'])
                         self.used_names.add(st[1][1])
                         self.v.callees.extend(hv.callees)
+                        self.v.lambdas |= hv.lambdas
                         body = [subst_params(x, st[1][2]) for x in hb]
                         if st[0] == 'expr':
                             body = body[:-1]
                         out.extend(self.stmts(body, depth + 1))
+                        continue
+                    if st[0] == 'expr' and hb and not any(x[0] == 'ret' and x[1] is not None for x in hb) and not early(hb) \
+                            and not unknowns(hb) and ret_is_void(g) and all(x[0] in ('decl', 'expr', 'ret') for x in hb):
+                        # a void helper called for its effect on its reference parameters: the statements of its body with the
+                        # parameters bound to the argument expressions (its locals renamed where the caller has the name too)
+                        self.used.add(g['id'])
+                        self.used_names.add(st[1][1])
+                        self.v.callees.extend(hv.callees)
+                        self.v.lambdas |= hv.lambdas
+                        taken = {x[1] for x in list(stmts) + out if x[0] == 'decl'}
+                        body = [x for x in hb if x[0] != 'ret']
+                        for x in list(body):
+                            if x[0] == 'decl' and x[1] in taken:
+                                nn = x[1]
+                                while nn in taken:
+                                    nn += "'"
+                                taken.add(nn)
+                                body = [map_terms(y, lambda z, a=x[1], b=nn: ('v', b) if z == ('v', a) else z) for y in body]
+                                body = [((y[0], nn) + tuple(y[2:])) if (y[0] == 'decl' and y[1] == x[1]) else y for y in body]
+                        for nm_, cs_ in hv.byref.items():
+                            self.v.byref.setdefault(nm_, set()).update(cs_)
+                        out.extend(self.stmts([subst_params(x, st[1][2]) for x in body], depth + 1))
                         continue
             if st[0] == 'expr' and st[1][0] == 'mcall' and st[1][1] == 'operator()' and depth < 4:
                 # a function object applied as a statement: f(a[i], b[i]) with f an instance of a helper struct of the analysed
@@ -1192,6 +1265,108 @@ class Inliner:
             else:
                 out.append(st)
         return out
+
+
+def ret_is_void(g):
+    fty = (g.get('fty') or '').strip()
+    return fty.startswith('void (') or fty.startswith('void(')
+
+
+def straightline(stmts, fields_of=None, byref=None):
+    """the value returned by a straight-line body - declarations of state variables, assignments (also compound ones) to a local or
+    to one field of a local, one final return - as one term over the parameters, by forward substitution; None if the body has any
+    other statement, or if a local is written in a way that is not followed (nested assignment, ++/--, handed to a call that may
+    take it by non-const reference: byref = {local: {callee names}}).
+    fields_of(typekey) -> field names in constructor-argument order, for aggregates whose all-fields constructor stores its
+    arguments (range_t(lower, upper)): `r.lower = x` on such a local then yields T(x, <old upper>)."""
+    env, fld, typ = {}, {}, {}
+    byref = byref or {}
+
+    def whole(name):
+        mine = {f: t for (n, f), t in fld.items() if n == name}
+        if not mine:
+            return env[name]
+        names = fields_of(typ.get(name)) if fields_of is not None else None
+        if not names or not set(mine) <= set(names):
+            return None
+        return ('ctor', typ[name], tuple(mine[f] if f in mine else project(env[name], f, typ[name]) for f in names))
+
+    def project(val, f, ty):
+        if val[0] == 'ctor' and fields_of is not None:
+            names = fields_of(val[1])
+            if names and len(val[2]) == len(names) and f in names:
+                return val[2][names.index(f)]
+        return ('m', val, f)
+
+    class GiveUp(Exception):
+        pass
+
+    def rd(t):
+        if not isinstance(t, tuple) or not t:
+            return t
+        if t[0] == 'v' and len(t) == 2 and t[1] in env:
+            w = whole(t[1])
+            if w is None:
+                raise GiveUp()
+            return w
+        if t[0] == 'm' and len(t) == 3 and isinstance(t[1], tuple) and t[1][:1] == ('v',) and len(t[1]) == 2 and t[1][1] in env:
+            n = t[1][1]
+            if (n, t[2]) in fld:
+                return fld[(n, t[2])]
+            return project(env[n], t[2], typ.get(n))
+        if t[0] == 'asg' or (t[0] == 'u' and t[1] in ('++', '--', 'post++', 'post--', '&')):
+            tgt = t[2]
+            while isinstance(tgt, tuple) and tgt and tgt[0] in ('m', 'idx'):
+                tgt = tgt[1]
+            if isinstance(tgt, tuple) and tgt[:1] == ('v',) and len(tgt) == 2 and tgt[1] in env:
+                raise GiveUp()
+        if t[0] in ('call', 'mcall', 'pcall') and isinstance(t[1], str):
+            for a in (t[2] if t[0] == 'call' else ((t[2],) + tuple(t[3]))):
+                r = a
+                while isinstance(r, tuple) and r and r[0] in ('m', 'idx'):
+                    r = r[1]
+                if isinstance(r, tuple) and r[:1] == ('v',) and len(r) == 2 and r[1] in env and (
+                        t[1] in byref.get(r[1], ()) or '?' in byref.get(r[1], ())):
+                    raise GiveUp()
+        if t[0] == 'mcall' and isinstance(t[2], tuple) and t[2][:1] == ('v',) and len(t[2]) == 2 and t[2][1] in env and t[1] in byref.get(t[2][1], ()):
+            raise GiveUp()
+        return tuple(rd(x) if isinstance(x, tuple) else x for x in t)
+
+    try:
+        for i, st in enumerate(stmts):
+            if st[0] == 'decl':
+                if st[1] in env or st[2] is None:
+                    return None
+                val = rd(st[2])
+                env[st[1]] = val
+                typ[st[1]] = st[3] if len(st) > 3 else None
+                continue
+            if st[0] == 'expr' and st[1][0] == 'asg':
+                op, tgt, rhs = st[1][1], st[1][2], st[1][3]
+                if op != '=' and not (op.endswith('=') and op[:-1] in ('+', '-', '*', '/', '%', '&', '|', '^', '<<', '>>')):
+                    return None
+                val = rd(rhs)
+                if tgt[0] == 'v' and len(tgt) == 2 and tgt[1] in env:
+                    if op != '=':
+                        cur = rd(tgt)
+                        val = ('b', op[:-1], cur, val)
+                    env[tgt[1]] = val
+                    for k in [k for k in fld if k[0] == tgt[1]]:
+                        del fld[k]
+                    continue
+                if tgt[0] == 'm' and len(tgt) == 3 and tgt[1][:1] == ('v',) and len(tgt[1]) == 2 and tgt[1][1] in env and fields_of is not None \
+                        and tgt[2] in (fields_of(typ.get(tgt[1][1])) or ()):
+                    if op != '=':
+                        val = ('b', op[:-1], rd(tgt), val)
+                    fld[(tgt[1][1], tgt[2])] = val
+                    continue
+                return None
+            if st[0] == 'ret' and st[1] is not None and i == len(stmts) - 1:
+                return rd(st[1])
+            return None
+    except GiveUp:
+        return None
+    return None
 
 
 def ctor_fields(tu, f, v, pick_target, depth=0):
